@@ -532,6 +532,50 @@ def pred_move(name, kind, idx, amount) -> tuple[str, str] | None:
     return None
 
 
+def pred_sequence(name: str, seq: list) -> tuple[str, str] | None:
+    """many moves on ONE long-lived object through the public plural wrappers, the object's own
+    reference bonding passed in as the bond network (as the interpolation code does): every move must
+    act on the same fragment a fresh object would choose, rigidly, and keep every reference bond length
+    (except the one bond a length change is asked to alter) — whatever moves came before."""
+    c = fresh(name)
+    G0 = c.reference_bonds.copy()
+    edges0 = sorted(tuple(sorted((int(u), int(v)))) for u, v in G0.edges())
+    blen = lambda p: {e: float(np.linalg.norm(p[3 * e[0]:3 * e[0] + 3] - p[3 * e[1]:3 * e[1] + 3])) for e in edges0}
+    ref = fresh(name)
+    for step, (kind, idx, amount) in enumerate(seq):
+        key = ([idx[1], idx[2]], "dihedral") if kind == "dihedral" else (idx, "angle") if kind == "angle" else (idx, "length")
+        expected = sorted(int(x) for x in ref.get_movable_atoms(key[0], key[1], G0.copy()))   # pristine topology
+        p0 = c.position.copy()
+        b0 = blen(p0)
+        where = f"step {step}: {kind} {idx} by {amount:.6g} on {name} after {step} earlier moves on the same object"
+        try:
+            if kind == "dihedral":
+                c.change_dihedral_angles([idx], [amount], c.reference_bonds)
+            elif kind == "angle":
+                c.change_bond_angles([idx], [amount], c.reference_bonds)
+            else:
+                c.change_bond_lengths([idx], [amount], c.reference_bonds)
+        except Exception as e:
+            return (f"{kind}:raises-after-history", f"{where}: raised {type(e).__name__}: {e}")
+        p1 = c.position.copy()
+        moved_now = sorted(i for i in range(c.n_atoms) if np.abs(p1[3 * i:3 * i + 3] - p0[3 * i:3 * i + 3]).max() > 1e-12)
+        if not set(moved_now) <= set(expected):
+            return (f"{kind}:wrong-fragment-after-history", f"{where}: atoms {sorted(set(moved_now) - set(expected))} moved "
+                    f"although they are not in the fragment {expected} a fresh object selects")
+        if expected and len(expected) > 1 and np.abs(_dists(p1, expected) - _dists(p0, expected)).max() > 1e-9:
+            return (f"{kind}:fragment-not-rigid-after-history", f"{where}: the fragment {expected} is deformed by "
+                    f"{np.abs(_dists(p1, expected) - _dists(p0, expected)).max():.3g}")
+        b1 = blen(p1)
+        changed = [e for e in edges0 if abs(b1[e] - b0[e]) > 1e-9]
+        allowed = [tuple(sorted((int(idx[0]), int(idx[1]))))] if kind == "bond" else []
+        bad = [e for e in changed if e not in allowed]
+        if bad:
+            e = bad[0]
+            return (f"{kind}:bond-length-changed-after-history", f"{where}: the reference bond {e} changes its length by "
+                    f"{abs(b1[e] - b0[e]):.3g}")
+    return None
+
+
 def predicates(ctx: Ctx) -> None:
     rng = ctx.rng
     deep = 4 if getattr(ctx, "deep_search", False) else 1
@@ -588,6 +632,67 @@ def predicates(ctx: Ctx) -> None:
             ctx.stats.case({"stream": "predicate-move", "molecule": nm, "kind": kind, "atoms": idx}, True)
             if r:
                 ctx.fail(r[0], r[1], {"kind": "move", "molecule": nm, "move": kind, "atoms": idx, "amount": amount})
+    # sequences of moves on one long-lived object (ring molecules included)
+    names = sorted(molecules())
+    if not (ctx.thorough or deep > 1):
+        rings = [n for n in names if any(t in n for t in ("benzene", "cyclo", "salicyl", "paracetamol", "azo"))]
+        names = sorted(set(rings[:4] + rng.sample(names, min(2, len(names)))))
+    for nm in names:
+        for _ in range(ctx.scale(1, 4) * deep):
+            seq = sequence_cases(rng, nm, ctx.scale(14, 40))
+            if not seq:
+                continue
+            try:
+                r = pred_sequence(nm, seq)
+            except Exception as e:
+                r = ("sequence:raises", f"sequence on {nm} raised {type(e).__name__}: {e}")
+            ctx.stats.case({"stream": "predicate-move-sequence", "molecule": nm, "len": len(seq)}, True)
+            if r:
+                ctx.fail(r[0], r[1], {"kind": "sequence", "molecule": nm, "seq": seq})
+
+
+_POOL: dict = {}
+
+
+def sequence_cases(rng, name: str, length: int) -> list:
+    if name in _POOL:
+        pool = _POOL[name]
+        if not pool:
+            return []
+        return [(k, i, rng.uniform(-20, 20) if k != "bond" else rng.uniform(-0.1, 0.15)) for k, i, _ in
+                (rng.choice(pool) for _ in range(length))]
+    c = fresh(name)
+    bonds, _, angles, _, _, _ = c.get_bond_angle_info()
+    dihs = [[int(x) for x in d] for d in c.rotatable_dihedrals]
+    pool = []
+    for a in angles:
+        a = [int(x) for x in a]
+        pool.append(("angle", a, None)); pool.append(("angle", a[::-1], None))      # both orientations
+    for d in dihs:
+        pool.append(("dihedral", d, None))
+    for b in bonds:
+        pool.append(("bond", [int(x) for x in b], None))
+    # keep only the moves that act on a proper fragment (a fresh object performing that single move keeps
+    # every other reference bond length): changes inside a ring necessarily deform the ring and are not
+    # what the property speaks about
+    ok = []
+    for kind, idx, _a in pool:
+        amt = 7.0 if kind != "bond" else 0.05
+        try:
+            if pred_sequence(name, [(kind, idx, amt)]) is None:
+                ok.append((kind, idx, None))
+        except Exception:
+            pass
+    pool = ok
+    _POOL[name] = pool
+    if not pool:
+        return []
+    seq = []
+    for _ in range(length):
+        kind, idx, _a = rng.choice(pool)
+        amount = rng.uniform(-20, 20) if kind != "bond" else rng.uniform(-0.1, 0.15)
+        seq.append((kind, idx, amount))
+    return seq
 
 
 def replay(ctx: Ctx, data: dict) -> bool:
